@@ -33,6 +33,8 @@ def idx_list(kind, n, rng):
         a = rng.choice([0, 0, 1, n // 2])
         b = rng.choice([n, n, max(a + 1, n - 1), n + 3])
         st = rng.choice([1, 1, 2, 3])
+        if not list(range(n))[a:b:st]:      # empty selections are not generated (as for masks): a weighted set of zero rows has
+            a, b, st = 0, n, 1              # no defined weights (0/0) and the constructor rejects it in every namespace
         return (a, b, st)
     raise ValueError
 
